@@ -22,6 +22,6 @@ Task: write a small, realistic source change to the library (the kind of slip a 
   2. the property above is violated, but only in a situation that needs something specific to manifest - e.g. a particular multi-step sequence of operations, an unusual-but-valid input (empty item, repeated token, a boundary count, a particular parameter combination), a buffer/threshold being crossed, a particular chunk/thread layout, or two cooperating sites that each look fine alone. NOT something that ordinary default use would expose at once;
   3. you provide a demonstration: a small standalone script `{wt}/demo.py` (run as `PYTHONPATH={wt} /venv/bin/python demo.py`) that exits 0 and prints PASS on the unchanged library and exits 1 and prints FAIL with your change applied. The demo must test the *property as stated* (not an implementation detail).
 
-Deliver, in {wt}: `patch.diff` (output of `git diff` for the library change only, not including demo.py), `demo.py`, and a short `NOTES.md` saying which file/function you changed, why the tests do not notice, and what exactly is needed for the violation to manifest. Leave the change applied in the worktree. Prefer a change in the core code paths the property is about ({files}). One change only; keep it under ~15 changed lines. {hint}
+Deliver, in {wt}: `patch.diff` (output of `git diff` for the library change only, not including demo.py), `demo.py`, and a short `NOTES.md` saying which file/function you changed, why the tests do not notice, and what exactly is needed for the violation to manifest. Leave the change applied in the worktree. NEVER use `git stash` (the stash is shared with other checkouts of this repository and would be corrupted): to test the unchanged library use `git apply -R patch.diff` and afterwards `git apply patch.diff`. Prefer a change in the core code paths the property is about ({files}). One change only; keep it under ~15 changed lines. {hint}
 
 In your final message, report: the diff, the demo output before/after, and which tests you ran after the change with their result.""")
